@@ -137,10 +137,36 @@ func groundWriters(e *Engine, prop string) []*Obligation {
 			kfs = append(kfs, kf)
 		}
 		sort.Strings(kfs)
+		callers := e.pkgCallers(p)
 		for _, kf := range kfs {
 			allowed := map[string]bool{}
 			for _, f := range e.cs.Writers[p][kf] {
 				allowed[f] = true
+			}
+			// an unexported, loop-free helper that is called only from listed writers is part of those writers: the engine
+			// inlines it into them, so their proofs cover its writes (a listed writer split in two is not a new writer)
+			for changed := true; changed; {
+				changed = false
+				for _, f := range found[kf] {
+					if allowed[f] {
+						continue
+					}
+					fi := e.funcs[p+"."+f]
+					name := f[strings.LastIndex(f, ".")+1:]
+					if fi == nil || name == "" || name[0] < 'a' || name[0] > 'z' || !e.autoInlinable(fi) || len(callers[f]) == 0 {
+						continue
+					}
+					all := true
+					for c := range callers[f] {
+						if !allowed[c] {
+							all = false
+						}
+					}
+					if all {
+						allowed[f] = true
+						changed = true
+					}
+				}
 			}
 			var extra []string
 			for _, f := range found[kf] {
@@ -152,6 +178,49 @@ func groundWriters(e *Engine, prop string) []*Obligation {
 				fmt.Sprintf("only %s write %s records in %s", strings.Join(e.cs.Writers[p][kf], ", "), kf, shortPkg(p)),
 				len(extra) == 0, "also written by (no contract covers these as writers of the record): "+strings.Join(extra, ", ")))
 		}
+	}
+	return out
+}
+
+// pkgCallers: for every function of the package, the functions of the same package (non-test files) that call it.
+func (e *Engine) pkgCallers(pkgPath string) map[string]map[string]bool {
+	out := map[string]map[string]bool{}
+	for key, fi := range e.funcs {
+		if fi.Pkg.PkgPath != pkgPath || fi.Body() == nil {
+			continue
+		}
+		if strings.HasSuffix(e.fset.Position(fi.Body().Pos()).Filename, "_test.go") {
+			continue
+		}
+		caller := strings.TrimPrefix(key, pkgPath+".")
+		if i := strings.Index(caller, "$"); i >= 0 {
+			caller = caller[:i] // a literal belongs to the function that contains it
+		}
+		info := fi.Pkg.TypesInfo
+		ast.Inspect(fi.Body(), func(n ast.Node) bool {
+			c, ok := n.(*ast.CallExpr)
+			if !ok {
+				return true
+			}
+			var id *ast.Ident
+			switch f := unparen(c.Fun).(type) {
+			case *ast.Ident:
+				id = f
+			case *ast.SelectorExpr:
+				id = f.Sel
+			}
+			if id == nil {
+				return true
+			}
+			if fo, ok := info.ObjectOf(id).(*types.Func); ok && fo.Pkg() != nil && fo.Pkg().Path() == pkgPath {
+				callee := strings.TrimPrefix(funcKey(fo), pkgPath+".")
+				if out[callee] == nil {
+					out[callee] = map[string]bool{}
+				}
+				out[callee][caller] = true
+			}
+			return true
+		})
 	}
 	return out
 }
